@@ -18,6 +18,7 @@ var lexFragments = []string{
 	"\"\\u00\"", "\"\\u{41}\"", "\"\\u{1F600}\"", "\"\\u{110000}\"", "\"\\u{}\"", "\"\\u{1234567}\"", "\"\\u{12\"", "\"\\u{zz}\"", "\"\\\"\"", "'\\''",
 	"\"\\\n\"", "\"abc", "'abc", "\"abc\\", "\"\\u", "\"\\x", "\"\\u{", "\"\\u{1", "`raw`", "`a\\`b`", "`multi\nline`", "`unterminated", "`a\\\\`", "``",
 	"// comment\n", "// trailing", "//\n", "// a // b\n", "//x  \n", "/", "/ /", "/* c */",
+	"// comment\r\n", "x // c\r\ny", "//\r\n", "a // b\r\n(c)", "return // c\r\n1", "a\r\n++b", "`a\r\nb`", "\"a\\\r\nb\"",
 	" ", "  ", "\t", "\n", "\n\n", "\r", "\r\n", "\x00", "\x80", "\xe9", "\xff", "é", "日本", "\u2028",
 }
 
@@ -72,6 +73,9 @@ func genLex(r *rand.Rand, n int, exhaustive bool, emit func(string)) {
 			s = randBytes(r, r.Intn(24))
 		default:
 			s = randFragments(r, 1+r.Intn(12))
+		}
+		if r.Intn(6) == 0 { // Windows line endings
+			s = strings.ReplaceAll(s, "\n", "\r\n")
 		}
 		emit(fmt.Sprintf("LEX %s %d", hexOf(s), r.Intn(4)))
 	}
